@@ -736,6 +736,8 @@ class SwitchEndian(Unary):
 
     def calculate_unary(self, dst, long):
         endian, size = self.fmt
+        if calcsize(size) == 1:
+            return  # a single byte has no byte order
         if endian == "<":
             opcode = Opcode.LE
         elif endian in ">!":
